@@ -847,17 +847,18 @@ def gen_adaptive(rng, tier, slice_only=False):
 
 
 # ---------------------------------------------------------------- C14 bounded decoders
-def py_dict_enc(vals):
+def py_dict_parts(vals):
+    """(dictSize field, entries, count field, indices, index width)"""
     d = sorted(set(vals))
     w = 1 if len(d) == 0 else max(1, (max(len(d) - 1, 0).bit_length() + 7) // 8)
-    out = bytearray(tagged_enc(len(d)))
-    for x in d:
-        out += tagged_enc(x)
-    out += tagged_enc(len(vals))
     pos = {x: i for i, x in enumerate(d)}
-    for v in vals:
-        out += pos[v].to_bytes(w, "little")
-    return bytes(out)
+    return (tagged_enc(len(d)), b"".join(tagged_enc(x) for x in d), tagged_enc(len(vals)),
+            b"".join(pos[v].to_bytes(w, "little") for v in vals), w)
+
+
+def py_dict_enc(vals):
+    a, b, c, d, _ = py_dict_parts(vals)
+    return a + b + c + d
 
 
 def py_bits_pack(bits):
@@ -1015,6 +1016,24 @@ def gen_bounded(rng, tier):
                 body = tagged_enc(dsz) + b"".join(tagged_enc(i) for i in range(min(dsz, k))) + tagged_enc(cnt) + bytes(k)
                 ops.append(f"b.dict hex:{body.hex()}")
                 ops.append(f"b.dictinto cap={hx(rng.choice([1, 4, 100000]))} hex:{body.hex()}")
+    # well-formed dictionaries (1-, 2- and 3-byte indices) whose count field alone is hostile: values whose product
+    # with the index width or with sizeof(uint64_t) wraps around 2^64, and values just above what the buffer holds
+    for dsz in [1, 2, 255, 256, 257, 300] + ([65536, 65537] if not quick else [65537]):
+        vals = list(range(1000, 1000 + dsz))
+        a, b, c, d, w = py_dict_parts(vals)
+        wraps = {1 << 63, (1 << 63) + 1, (1 << 62), (1 << 62) + 1, (1 << 61), (1 << 61) + 3, M64, M64 - 1,
+                 (1 << 64) // 3 + 1, (1 << 64) // 3 + 2, (1 << 64) // 3, ((1 << 64) + w - 1) // w, ((1 << 64) + w - 1) // w + 1,
+                 len(vals) + 1, len(vals) * 2, 0, 1}
+        for cnt in sorted(c_ for c_ in wraps if 0 <= c_ <= M64):
+            for idx in (b"", d[:w], d[:2 * w + 1], d):
+                body = a + b + tagged_enc(cnt) + idx
+                ops.append(f"b.dict hex:{body.hex()}")
+                ops.append(f"b.dictinto cap={hx(rng.choice([1, len(vals), 100000]))} hex:{body.hex()}")
+        # hostile dictionary size in front of a well-formed rest
+        for fake in (dsz + 1, dsz - 1 if dsz > 1 else 0, 1 << 20, (1 << 20) + 1, M64):
+            body = tagged_enc(fake) + b + c + d
+            ops.append(f"b.dict hex:{body.hex()}")
+            ops.append(f"b.dictinto cap={hx(len(vals))} hex:{body.hex()}")
     # random strings
     for _ in range(300 if quick else 100000):
         ln = rng.choice([3, 4, 5, 6, 9, 12, 33, 200, 4096]) if rng.random() < 0.9 else rng.randint(0, 4096)
